@@ -3,6 +3,8 @@
 package core
 
 import (
+	commontimeutil "github.com/lindb/common/pkg/timeutil"
+
 	"encoding/json"
 	"fmt"
 	"math/rand"
@@ -106,10 +108,10 @@ type Result struct {
 
 // RunCtx is what a harness sees.
 type RunCtx struct {
-	Sim     *simrt.Sim
-	Plan    *Plan
-	Dir     string
-	Res     *Result
+	Sim      *simrt.Sim
+	Plan     *Plan
+	Dir      string
+	Res      *Result
 	stateSet map[string]bool
 }
 
@@ -204,6 +206,7 @@ func Execute(t *testing.T, h Harness, plan *Plan) *Result {
 		synctest.Test(t, func(t *testing.T) {
 			// package-level math/rand and uuid are part of the run's inputs (GODEBUG=randseednop=0)
 			rand.Seed(plan.Seed*31 + 7) //nolint
+			commontimeutil.VerifNanoTick = 0
 			uuid.SetRand(rand.New(rand.NewSource(plan.Seed*131 + 3)))
 			if plan.Replay {
 				rec := map[int]int{}
